@@ -33,7 +33,7 @@ PROPS = {
         "rule": "one op line per scalar-multiplication call (algorithm, curve, point, scalar, window/table parameters); distinct = distinct op line; non-trivial = scalar outside {0,1} and non-identity point",
         "exhaustive": ["all points x all k in 0..2#E+1 on seven toy curves over F_13 for the double-and-add and scalar paths"],
         "partial": [],
-        "assumptions": ["GLV paths are judged on points of the order-r subgroup (the Projective type's invariant); curve crates' GLV parameters are C16"],
+        "assumptions": ["GLV paths are judged on points of the order-r subgroup (the Projective type's invariant; inputs outside it and GLV matrices with determinant other than r carry the branch tag ood); the eleven shipped GLVConfigs are exercised by the extra stream c04x and their constants by C16 / C04d"],
     },
     "C09": {
         "modules": ["Ark.Props.C09", "Ark.Props.C09b", "Ark.Props.C10b", "Ark.Props.C09c"],
@@ -42,7 +42,7 @@ PROPS = {
         "exhaustive": ["every byte string of the serialized size for the toy fields and toy curves"],
         "partial": [],
         "partial": [],
-        "assumptions": ["the ZCash format of the bls12_381 curve crate is not modelled (ark_test_curves does not override serialization)"],
+        "assumptions": ["the curve crates are covered by the extra stream c10x (all shipped curve groups, incl. a function-by-function model of the bls12_381 crate's ZCash format, Ark/Model/Zcash.lean, theorems C10b)"],
     },
     "C10": {
         "modules": ["Ark.Props.C10", "Ark.Props.C10b"],
